@@ -275,6 +275,9 @@ class Frag:
             return ('ret', self.val(ins.ops[0]) if ins.ops else None)
         if op == 'unreachable':
             return ('unreachable', ins)
+        if op == 'alloca':
+            R[ins.res] = Ptr(('alloca', ins.res))
+            return None
         if op == 'load':
             R[ins.res] = self.load(self.val(ins.ops[0]), ins)
             return None
